@@ -166,6 +166,7 @@ def generate(rng, tier, cls):
             'noise': pipe.gen_noise(rng),
             'crlf': rng.chance(0.15),
             'dom_hook': rng.chance(0.15),
+            'norewind': rng.randint(1, 6) if rng.chance(0.08) else None,
             'stream': gen.gen_stream(rng)[0],
             'stream_extras': sx,
             'block_size': rng.choice([None, None, 1, 9, 97])}
@@ -315,6 +316,30 @@ def execute(scn, L):
                 ids[len(recs)] if len(recs) < len(ids) else '?'), info)
         elif got_ids != ids:
             out.violate('C10.ids', 'legal-sequence', info)
+        elif isinstance(scn.get('norewind'), int) and \
+                0 < scn['norewind'] < len(ids):
+            # iteration abandoned after j records and started again on the
+            # same reader *without* rewinding: the next header cannot open a
+            # file, so it is refused (where the error says it is lies
+            # outside this property)
+            j = scn['norewind']
+            st = io.BytesIO(data)
+            rd = L.DiffXReader(st)
+            it = iter(rd)
+
+            try:
+                for _ in range(j):
+                    next(it)
+
+                getattr(it, 'close', lambda: None)()
+                again = list(rd)
+                out.violate('C10.illegal-accepted', 'restart:%s' % ids[j],
+                            {'ids': ids, 'restart_at': j,
+                             'yielded': [r.get('section') for r in again]})
+            except L.DiffXParseError as e:
+                out.probe('restart_without_rewind_refused')
+            except (RuntimeError, StopIteration):
+                pass
         elif scn.get('dom_hook'):
             # the same legal sequence through the object-model loader with
             # the documented reader_cls hook set to a DiffXReader subclass
